@@ -312,7 +312,7 @@ def _real_test(
     variables: NDArray[float64] = _pinv(A_re).dot(X_exp.real / abs_X_exp)
     if add_capacitance:
         # Nullifies the capacitance without dividing by 0
-        variables[-2] = 1e-18
+        variables[-2] = 0.0
 
     # Fit using the imaginary part to fix the series/parallel
     # inductance (and capacitance)
